@@ -228,7 +228,9 @@ def execute(sc, ctx):
     inj = "/injected-default" if ops.injected(k) else ""
     vtag = "v1" if version == 1 else "v2+"
     if d:
-        ctx.violate(f"C14/replica-differs/{vtag}/{mechanism(k, d)}{inj}",
+        mech = mechanism(k, d)
+        # a removed range cannot be expressed by a difference, whatever else happened in the session
+        ctx.violate(f"C14/replica-differs/{vtag}/{mech}{'' if mech.startswith('ranges-stale/') else inj}",
                     f"after {len(lines)} requests the client's replica differs from a newly started server's state: {d[:4]}")
     # (c) a `load` is documented as equivalent to restarting the server on that file: the session ended on a pure load
     if state.get("final_load"):
